@@ -263,7 +263,7 @@ def main(tier, seed):
             t = uexpr.gen_tree(rng, A, rng.randrange(1, 4), pool)
         if uexpr.size(t) <= 25:
             trees.append(t)
-    nchunks = 16
+    nchunks = max(16, -(-len(trees) // 14))      # bounded translation units: ~14 cases per TU in every tier
     configs = [("g++", "c++14"), ("clang++-14", ["c++14", "c++17", "c++20"][seed % 3])]
     results = {}
     stats = {"trees": len(trees), "configs": [], "labels_parsed": 0, "unlabeled_or_unsupported": 0, "itoa_args": 0, "stream_cases": 0,
